@@ -36,7 +36,7 @@ CLAIMS = {
  "C02": ("path rules on the range handler anchored on Recordsv4/allocator/yiaddr: lookup-before-allocate, insert-before-reply, exhaustion, provenance, lease time; per-iteration restart rule; lock discipline",
          "Shows on every abstract path that a new address is allocated and bound only after this client's key was looked up and found absent, that the reply carries the stored or just-allocated address and the configured lease time, that failure binds nothing, that restart re-marks and verifies every stored lease and keys the restored map like the handler, all in one exclusive critical section.",
          "In-range and uniqueness of the numbers are the allocator clauses (C04/C05); sqlite durability is not decided.", "4 C02"),
- "C03": ("writer/reader agreement tables extracted from SQL constants and SSA (columns, Go types, codec inverse pairs with domains, key form); must-pass rules for persistence and expiry provenance",
+ "C03": ("writer/reader agreement tables extracted from SQL constants and SSA (columns, Go types, codec inverse pairs with domains, key form); must-pass rules for persistence and expiry provenance, path-condition rule for replies that keep the stored expiry (recognised time.Time comparison forms)",
          "Decides that every row the handler can write is accepted by the loader column by column (including the hardware-address codec's domain), that both sides key the map identically, that persistence precedes every reply and that the stored expiry is the promised one.",
          "sqlite affinity/durability and timing are not decided.", "4 C03"),
  "C04": ("typestate 'bit proved clear' per abstract state (phi-merged indices proved per incoming path), mutex-held dataflow, same-index provenance at returns, sibling agreement, index/prefix conversion-pair agreement, may-alias analysis of writes through pool geometry and of the returned storage, inductive check of a first-free search cursor",
@@ -57,7 +57,7 @@ CLAIMS = {
  "C09": ("accumulator shape check on SSA phi/append, reuse-before-allocate and marking rules per iteration, samePrefix exit comparison",
          "The value recorded for a client accumulates all new leases on top of the known ones; new blocks only for hints no known lease satisfied (per-hint bitmap, same index); handing back a lease marks hint and lease; reuse only for equal or empty hints; samePrefix compares address and mask.",
          "Recognition of the hint-less placeholder and equality of prefix values across messages are value properties, not decided.", "4 C09"),
- "C10": ("who-writes/who-reads analysis of the served table, swap-on-success rule, per-iteration line grammar on both sibling loaders, lookup-key agreement, watcher loop shape, provenance of the loaded/watched path (the configured argument)",
+ "C10": ("who-writes/who-reads analysis of the served table, swap-on-success rule and its converse (every success exit of a loader passes through the swap), per-iteration line grammar on both sibling loaders, lookup-key agreement, watcher loop shape, provenance of the loaded/watched path (the configured argument)",
          "Decides the loaders' line grammar and all-or-nothing shape, the swap discipline, key agreement between loaders and handlers, exact handler outcomes for listed/unlisted clients, and that the watcher never stops. Reports the shared global table as a known finding.",
          "stdlib address grammars and fsnotify delivery are not decided.", "4 C10"),
  "C16": ("GUARDED-BY table with mutex-held dataflow (caller-context for helpers), cross-critical-section dependence (facts, values and keys through containers), global write reachability, buffer typestate, retention analysis of objects given back to a sync.Pool, fresh-object rule for published maps, lock pairing/order",
